@@ -1,6 +1,5 @@
 """A streaming reader for DiffX files."""
 
-import codecs
 import io
 import json
 import os
@@ -488,10 +487,10 @@ class DiffXReader(object):
                 linenum=self._linenum)
 
         if encoding is not None:
-            # Make sure we can work with this encoding before we try to use
-            # it for the newlines and the content.
+            # Make sure this is a text encoding we can work with before we
+            # try to use it for the newlines and the content.
             try:
-                codecs.lookup(encoding)
+                ''.encode(encoding)
             except (LookupError, TypeError):
                 raise DiffXParseError(
                     'Unknown encoding "%s"' % encoding,
